@@ -240,8 +240,8 @@ def env_atoms(desc, host_atoms):
                              "position": ("n", "mid", "c")[i], "chain": pchain,
                              "res_seq": pstart + i, "target": False,
                              "partner_centre": i == 1})
-        elif kind == "omit":
-            pass  # handled in host()
+        elif kind in ("omit", "alias"):
+            pass  # handled in host() / build_case()
         elif kind == "extra":
             # an atom the topology does not know, 1.5 A from CA of residue X
             ca = _find(host_atoms, ti, "CA")
@@ -293,6 +293,20 @@ def build_case(desc):
                   if a["res_idx"] == e["_after"] and a["chain"] == e["chain"])
         atoms.insert(idx + 1, e)
     atoms = atoms + extra
+    alias = {dev[1]: dev[2] for dev in desc.get("env", [])
+             if dev[0] == "alias"}
+    if alias:
+        # the file uses the alternative names; the harness keeps the
+        # canonical ones (the program renames on reading)
+        ti = _target_idx(desc["pos"])
+        filed = []
+        for a in atoms:
+            if a["res_idx"] == ti and a["chain"] == "A" \
+                    and a["name"] in alias:
+                a = build.BAtom(a)
+                a["name"] = alias[a["name"]]
+            filed.append(a)
+        return build.pdb_text(filed), info + einfo, atoms
     return build.pdb_text(atoms), info + einfo, atoms
 
 
@@ -753,3 +767,113 @@ def asym_acid_cases(ffs=("AMBER", "PARSE")):
                                          "OD2" if x[0] == "A" else "OE2",
                                          0, 2.8]]})
     return out
+
+
+# ---------------------------------------------------------------------------
+# the torsion alphabet: the debumper's own operation driven exhaustively
+# ---------------------------------------------------------------------------
+TORSION_STEPS = (30.0, 90.0, 180.0, 270.0)
+BACKBONE = ("N", "CA", "C", "O", "OXT")
+
+
+def alias_cases(ffs=("AMBER",), names=None):
+    """Every alternative atom name the topology files define for a residue
+    (and for its terminal patches, charged or neutral): the input uses the
+    alternative name for one atom.  Hydrogen aliases come with a fully
+    hydrogenated input.  Under the PARSE neutral-terminus options the
+    aliases of the terminal atoms are those of the charged terminus too."""
+    out = []
+    for x in (names or T.AMINO):
+        for pos in corpus.POSITIONS:
+            tmpl = T.expected_topology(x, pos)
+            al = {}
+            for alt, canon in tmpl.altnames.items():
+                if canon in tmpl.atoms and alt not in tmpl.atoms:
+                    al.setdefault(canon, []).append(alt)
+            for canon, alts in sorted(al.items()):
+                for alt in alts:
+                    if len(alt) > 4:
+                        continue
+                    for ff in ffs:
+                        d = {"x": x, "pos": pos, "ff": ff, "opt": "default",
+                             "env": [["alias", canon, alt]]}
+                        if canon.startswith("H"):
+                            d["hydrogens"] = True
+                        out.append(d)
+                    if canon.startswith("H") or pos == "mid":
+                        continue
+                    for opt in (("neutraln", "neutral_both") if pos == "n"
+                                else ("neutralc", "neutral_both")):
+                        ntm = T.expected_topology(
+                            x, pos,
+                            neutraln=opt in ("neutraln", "neutral_both"),
+                            neutralc=opt in ("neutralc", "neutral_both"))
+                        if canon in ntm.atoms:
+                            out.append({"x": x, "pos": pos, "ff": "PARSE",
+                                        "opt": opt,
+                                        "env": [["alias", canon, alt]]})
+    return out
+
+
+def torsion_cases(ff="AMBER", names=None, opts=("default",)):
+    """Every side-chain torsion the topology defines for a residue, set to
+    four angles in turn through the debumper's own routine (the search of
+    the debumper reaches the deeper torsions only in crowded surroundings;
+    here each one is exercised directly)."""
+    out = []
+    for opt in opts:
+        for x in (names or corpus.INPUT_NAMES):
+            for pos in corpus.POSITIONS:
+                out.append({"x": x, "pos": pos, "ff": ff, "opt": opt,
+                            "env": [], "drive_torsions": True})
+    return out
+
+
+def torsion_drive(case, info, log=None):
+    """Context manager: right after the second debumping pass (all hydrogens
+    present) every side-chain torsion of the target residue is set to its
+    current value + 30, 90, 180 and 270 degrees through
+    Debump.set_dihedral_angle.  No-op unless case['drive_torsions']."""
+    import contextlib
+
+    from pdb2pqr import debump
+
+    if not case.get("drive_torsions"):
+        return contextlib.nullcontext()
+    target = next(i["res_seq"] for i in info if i.get("target"))
+    state = {"calls": 0}
+
+    def drive(orig, self_, *a, **k):
+        state["calls"] += 1
+        result = orig(self_, *a, **k)
+        # after the pass: cells, bonds of the new hydrogens and the torsion
+        # table are those the debumper itself works with
+        if state["calls"] == 2:
+            residue = next(r for r in self_.biomolecule.residues
+                           if r.res_seq == target
+                           and hasattr(r, "reference"))
+            for idx, text in enumerate(residue.reference.dihedrals):
+                names = text.split()
+                if idx >= len(residue.dihedrals) or \
+                        residue.dihedrals[idx] is None:
+                    continue
+                if any(n in ("N+1", "C-1") for n in names):
+                    continue
+                if names[2] in BACKBONE or not all(
+                        residue.has_atom(n) for n in names):
+                    continue
+                for step in TORSION_STEPS:
+                    self_.set_dihedral_angle(
+                        residue, idx, residue.dihedrals[idx] + step)
+                    if log is not None:
+                        log.append((text, step))
+        return result
+
+    return pipeline_monitor(debump.Debump, "debump_biomolecule", drive)
+
+
+def pipeline_monitor(owner, name, replace):
+    from . import pipeline
+
+    return pipeline.monitor(owner, name, replace=replace)
+
